@@ -246,9 +246,12 @@ var c10Vals = []string{"", "1.2.3.4", "::1", "::ffff:1.2.3.4", "[::1]", "1.2.3",
 	"10 mail.x", "10  mail.x", "65536 mail.x", "65535 mail.x", "-1 mail.x", "10 .", "10", "0 m.x", "1e20 m.x", "1 2 3 t.x", "1 2 3 .", "1 2 65536 t.x", "65535 65535 65535 t.x",
 	"1 2 3", "1 2 3 t.x extra", "1 .", "1 . alpn=h3", "1 . alpn", "1 . a=b=c", "1 t.x ipv4hint=1.2.3.4 port=8443", "99999 .", "1 . dohpath=", "1 . dohpath=/dns-query{?dns}", "1 t.x alpn=", "1 . =x", "1 . dohpath=x",
 	"v=spf1 -all", "0 issue letsencrypt.org", "hello world", "a;b",
-	strings.Repeat("a", 64), strings.Repeat("a", 63), strings.Repeat("t", 255), strings.Repeat("t", 256), strings.Repeat("long text ", 60), "xn--e1afmkfd.xn--p1ai", "0.0.0.0", "::", "1.2.3.4.", " 1.2.3.4", "fe80::1%eth0", "a..b", "a.b..", "1", "00 m.x", "+1 m.x"}
+	strings.Repeat("a", 64), strings.Repeat("a", 63), strings.Repeat("t", 255), strings.Repeat("t", 256), strings.Repeat("long text ", 60), "xn--e1afmkfd.xn--p1ai", "0.0.0.0", "::", "1.2.3.4.", " 1.2.3.4", "fe80::1%eth0", "a..b", "a.b..", "1", "00 m.x", "+1 m.x",
+	// code points beyond Latin-1 and invalid UTF-8, in first and later positions of a label
+	"ex\u0430mple.net", "\u043f\u0440\u0438\u043c\u0435\u0440.\u0440\u0444", "h\u4f8b.jp", "ex\u00e4mple.de", "a\xffb.example", "host.ex\u0131mple", "10 ma\u0131l.x", "1 2 3 t\u0430.x", "1 \u4f8bx.y", "1 s\u0430.x alpn=h3"}
 var c10Shorts = []string{"NOERROR", "NXDOMAIN", "SERVFAIL", "REFUSED", "FORMERR", "A", "ABC", "abc", "Abc", "1.2.3.4", "::", "1.2.3.4.5", "example.org", "example.org.",
-	"EXAMPLE", "exa mple", "a;b", ";", ";;", ";;;", "NOERROR;A", "NOERROR;;", "", "::ffff:1.2.3.4", "[::1]", "fe80::1%eth0", "a-.b", "-", "1", "dead.beef", "1.2.3.256", "::g"}
+	"EXAMPLE", "exa mple", "a;b", ";", ";;", ";;;", "NOERROR;A", "NOERROR;;", "", "::ffff:1.2.3.4", "[::1]", "fe80::1%eth0", "a-.b", "-", "1", "dead.beef", "1.2.3.256", "::g",
+	"ex\u0430mple.net", "h\u4f8b.jp", "a\xffb.example", "\u4f8b.jp", "ex\u00e4mple.de"}
 
 // every record type name known to the DNS library, in both letter cases
 var c10AllTypes = func() []string {
